@@ -23,6 +23,7 @@ import c06_gen as G
 import c06_pool
 import codec_common as cc
 import core
+import extract_c01
 import lenient_common as lc
 from core import Infra, hx, unhx
 
@@ -31,8 +32,13 @@ HEX_MAX = 24_000              # failing inputs up to this size are stored as hex
 TIMEOUT = 20.0
 RSS_CONST_KB = 16 * 1024      # open: peak RSS growth allowed = 16 MiB + 160 * len(b)  (see ctx.rule)
 RSS_FACTOR = 160
-EXPORT_DECLARED_OK = 64 << 20   # an export may legitimately allocate in proportion to the DECLARED pixel volume
+# An export may legitimately allocate in proportion to the pixel volume the file DECLARES (header + layer rectangles):
+# the compositor keeps float32 colour / alpha / shape buffers per group level, measured here at up to ~45 x the declared
+# 8-bit volume.  A MemoryError (headroom 1200 MiB) or a hang on a file declaring at most 8 MiB of pixels (> 150 x) is
+# therefore not explained by the declared sizes and is a violation; above that it is information.
+EXPORT_DECLARED_OK = 8 << 20
 CHUNK = 3000
+MAX_HARD = 12                 # hangs / worker deaths after which the search stops (the verdict is a violation anyway)
 
 
 # ------------------------------------------------------------------------------------------------ helpers
@@ -145,7 +151,7 @@ def violations_of(c, r):
     grow = om.get("grow_kb", 0)
     bound = RSS_CONST_KB + RSS_FACTOR * len(c["b"]) // 1024
     if grow > bound:
-        out.append((f"C06/open/memory/rss-growth/{c.get('label') or c['op']}",
+        out.append((f"C06/open/memory/rss-growth/{o['where'] if o['k'] != 'ok' else 'accepted'}",
                     f"peak resident set grew by {grow} KiB while opening {len(c['b'])} bytes (bound {bound} KiB)",
                     {"grow_kb": grow, "bound_kb": bound, "outcome": o}))
     hf = c.get("hdr_invalid")
@@ -163,7 +169,8 @@ def violations_of(c, r):
                             f"{op}: MemoryError (RLIMIT_AS) although the file declares only {decl} bytes of pixels", x))
         g = em.get("grow_kb", 0)
         if decl is not None and g > 256 * 1024 + 48 * decl // 1024:
-            out.append((f"C06/export/memory/rss-growth/{c.get('label') or c['op']}",
+            bad = [x["where"] for x in em.get("ops", {}).values() if x["k"] != "ok"]
+            out.append((f"C06/export/memory/rss-growth/{bad[0] if bad else 'no-exception'}",
                         f"export grew the resident set by {g} KiB for {decl} declared bytes of pixels",
                         {"grow_kb": g, "declared_bytes": decl, "ops": {k: v["k"] for k, v in em.get("ops", {}).items()}}))
     return out
@@ -315,7 +322,7 @@ def gen_stream(ctx, quick, info):
                 yield case(bb, "maxsubst", why, fx=p.name, label=why[why.find("(") + 1:-1])
             # the structure-aware engine of lenient_common (lengths/counts +-1 +-2 x2, splices, dup/del of blocks ...)
             for bb, rec in lc.gen_mutants(rng, sm, donors[-6:] if donors else [(b, sm)], max(4, n["mut"] // div)):
-                yield case(bb, "mutant:" + rec["op"], json.dumps({k: v for k, v in rec.items() if k not in ("a", "b")})[:120],
+                yield case(bb, "mutant:" + rec["op"], json.dumps({k: v for k, v in rec.items() if k not in ("a", "b", "edits")})[:120],
                            fx=p.name, label=rec.get("label"))
             # text engine data (regular-expression tokenizer) under same-length hostile replacements
             if grp != "big" or not quick:
@@ -333,10 +340,13 @@ def gen_stream(ctx, quick, info):
 def selftest(ctx, pool):
     """the watchdog must detect each kind of misbehaviour, otherwise nothing it reports can be trusted"""
     res = {}
-    for w, want in ((b"hang", "hang"), (b"segv", "crash"), (b"die", "exit"), (b"alloc", "memory"), (b"exit", "non-exception"),
+    for w, want in ((b"hang", "hang"), (b"sleep", "hang"), (b"segv", "crash"), (b"die", "exit"), (b"alloc", "memory"), (b"exit", "non-exception"),
                     (b"rss", "rss")):
+        t0 = time.time()
         r = pool.one(128, w, timeout=2.0)
         got = r["status"]
+        if w in (b"hang", b"sleep"):
+            res[w.decode() + "_detected_after_s"] = round(time.time() - t0 - 0.3, 1)
         if got == "done":
             o = r["open"]["open"]
             got = o["k"]
@@ -353,6 +363,9 @@ def run(ctx):
     rng = ctx.rng
     T = {}
     t0 = time.time()
+    # the header validators' bounds, enum value sets and accepted signatures the model uses are regenerated from the
+    # live classes (shared with C01: Generated/Codec.lean), so a change of a validator moves the model with it
+    ctx.regenerate(extract_c01.gen_codec)
     ctx.prove(["PsdVerif.Props.C06"])
     T["prove"] = round(time.time() - t0, 1)
     # does the driver have the cost command of the Lean half?
@@ -394,7 +407,8 @@ def _run(ctx, pool, hello, has_cost, T):
     budget = 900 if quick else 2400
     t_start = time.time()
     stream = gen_stream(ctx, quick, info)
-    while True:
+    hard = [0]
+    while not pool.abort:
         chunk = list(itertools.islice(stream, CHUNK))
         if not chunk:
             break
@@ -419,8 +433,19 @@ def _run(ctx, pool, hello, has_cost, T):
         n_cases += len(chunk)
         # ---- the watchdog (also computes the raw-payload outcome for the correspondence)
         t0 = time.time()
-        res = pool.map((c["id"], c["flags"], c["b"]) for c in chunk)
+        def on_result(_ident, r):
+            if r["status"] != "done":
+                hard[0] += 1
+                if hard[0] >= MAX_HARD:
+                    pool.abort = True
+        res = pool.map(((c["id"], c["flags"], c["b"]) for c in chunk), on_result)
         t_pool += time.time() - t0
+        if pool.abort:
+            not_run = [c for c in chunk if c["id"] not in res]
+            chunk = [c for c in chunk if c["id"] in res]
+            ctx.notes.append(f"search stopped early: {hard[0]} inputs hung or killed their worker (each costs up to the "
+                             f"wall-clock limit); {not_run and len(not_run)} inputs of the current chunk and the rest of the "
+                             "stream were not run. The verdict is already a violation.")
         # ---- the model
         t0 = time.time()
         mcases = [c for c in chunk if c["model"]]
@@ -541,7 +566,9 @@ def _run(ctx, pool, hello, has_cost, T):
     t0 = time.time()
     for sig, v in sorted(found.items()):
         c = v["case"]
-        c2 = shrink(pool, c, sig, fxbytes) if "/hang/" not in sig else c
+        # header cases are single-field by construction (and a subset of the bytes would be a different value);
+        # a hang costs the full wall-clock limit per probe: both are reported as found
+        c2 = c if ("/hang/" in sig or c.get("hdr_invalid")) else shrink(pool, c, sig, fxbytes)
         ctx.fail(sig, v["what"], input_repr(c2, fxbytes), v["observed"],
                  "opening returns a document or raises an ordinary Exception within %.0f s and %d KiB + %d x len(b) of "
                  "resident-set growth; an invalid header is rejected" % (TIMEOUT, RSS_CONST_KB, RSS_FACTOR))
@@ -555,7 +582,10 @@ def _run(ctx, pool, hello, has_cost, T):
     ctx.extra["stream"] = {"cases": n_cases, "model_cases": n_model, "per_section": dict(sorted(sections.items())),
                            "fixtures": info.get("fixtures")}
     ctx.extra["watchdog"] = {
-        "workers": pool.n, "wall_clock_limit_s": TIMEOUT, "rlimit_as_bytes": hello["rlimit_as"],
+        "workers": pool.n, "wall_clock_limit_s": TIMEOUT,
+        "hang_rule": "no answer after %.0f s of wall clock during which the worker had the CPU for >= %.0f s; or no answer "
+                     "after %.0f s regardless (starved or sleeping worker)" % (TIMEOUT, 0.6 * TIMEOUT, 4 * TIMEOUT),
+        "rlimit_as_bytes": hello["rlimit_as"],
         "baseline_address_space_bytes": hello["base_vm"], "headroom_bytes": hello["rlimit_as"] - hello["base_vm"],
         "baseline_rss_kb": hello["base_rss_kb"], "peak_rss_method": "VmHWM reset per item through /proc/self/clear_refs"
         if hello["hwm_reset"] else "growth of ru_maxrss (VmHWM could not be reset)",
@@ -584,10 +614,11 @@ def _run(ctx, pool, hello, has_cost, T):
                 "1000/7 levels), an exception that is not an Exception, or an open() that succeeds on a header with one "
                 "invalid field. Export calls (every 5th opened input: composite/topil; every 20th and all hand-made ones: "
                 "also the first 8 layers' topil/numpy) are violations only for crashes, non-Exceptions, and hangs / "
-                "MemoryErrors on files that DECLARE at most 64 MiB of pixels" % (C, TIMEOUT, RSS_CONST_KB, RSS_FACTOR))
+                "MemoryErrors on files that DECLARE at most 8 MiB of pixels (the compositor's float32 working set is "
+                "proportional to the declared volume, measured at up to ~45 x)" % (C, TIMEOUT, RSS_CONST_KB, RSS_FACTOR))
     ctx.trusted_base = ["Lean kernel", "lean/PsdVerif/Model/Psd.lean (hand transliteration of the skeleton readers, checked by "
                         "this correspondence, not proved equal to the Python)", "harness/c06_worker.py + harness/c06_pool.py (the "
-                        "watchdog; self-tested on every run against a busy loop, a segfault, os._exit, a 3 GiB allocation, "
+                        "watchdog; self-tested on every run against a busy loop, a sleeping process, a segfault, os._exit, a 3 GiB allocation, "
                         "SystemExit and a 200 MiB resident-set spike)", "harness/lenient_common.py (structural map)",
                         "Linux RLIMIT_AS / VmHWM accounting"]
     ctx.assumptions = ["the property is observed through io.BytesIO (a declared length larger than the data returns only what is "
